@@ -3,9 +3,9 @@ CONSTANTS
   Users = {"u1", "u2"}
   Provs = {"p1"}
   RecordHist = FALSE
-  MaxH = 7
+  MaxH = 6
   MaxReq = 3
-  Intervals = {0, 1, 2}
+  Intervals <- IntervalsWrapDef
   Caps = {10}
   Bound = {"p1"}
   Price = 10
@@ -13,7 +13,7 @@ CONSTANTS
   Timeout = 2
   TaxNum = 1
   TaxDen = 10
-  Kinds = {"seed", "err", "bad"}
+  Kinds = {"seed"}
   MaxZH = 0
 VIEW View
 INVARIANTS
